@@ -1827,7 +1827,8 @@ func (a *align) Pssm(log bool, pseudocount float64, normalization int) (pssm map
 	/* Initialize entropy if NORM_LOGO*/
 	entropy = make([]float64, a.Length())
 	/* Applying normalization factors */
-	for k, v := range pssm {
+	for _, k := range alphabet {
+		v := pssm[k]
 		for i := range v {
 			v[i] = v[i] * normfactors[k]
 			if normalization == PSSM_NORM_LOGO {
